@@ -2,5 +2,6 @@ SPECIFICATION Spec
 INVARIANT AddCoverageMonotone
 INVARIANT AddFitnessMonotone
 INVARIANT MergeOrderIndependent
+INVARIANT MergeKeepsInputs
 INVARIANT ObservedTraceWF
 INVARIANT ConformsMerge
